@@ -715,6 +715,7 @@ def _nonzero_proof(facts, body, it, bb, v):
 
 @rule('VC-NOZERO', {
     'C10': 'No API call stores a zero counter: every counter written into a dots map is provably non-zero at the store',
+    'C20': 'an explicit zero entry is residue: two clocks holding the same knowledge stop being equal, and a remove context built from such a clock is parked forever',
 }, floor=3)
 def vc_nozero(ctx):
     """Every store of a counter into a VClock's `dots` map anywhere in the crate (insert, Entry API, write through an
